@@ -134,7 +134,7 @@ def class_of(v):
     if isinstance(v, SObj):
         return v.cls
     if isinstance(v, SInt):
-        return int
+        return v.pycls or int
     if isinstance(v, SBool):
         return bool
     return type(v)
